@@ -5,7 +5,9 @@ CONSTANTS Emit, Variant, Depth
 P == INSTANCE PyNorm
 Atoms == << P!Id(<<"a">>), P!Id(<<"a", "b">>), P!Id(<<"e", "x", "p">>),
             P!Q(<<"a">>), P!Q(<<"x">>), P!Q(<<"a", " ", "b">>), P!Q(<<"a", "+", "b">>), P!Q(<<"a", "_", "b">>), P!Q(<<"1", "a">>), P!Q(<<"f", "o">>),
-            P!Str(<<"a">>), P!Str(<<"a", " ", "b">>), P!Str(<<"x">>) >>
+            P!Str(<<"a">>), P!Str(<<"a", " ", "b">>), P!Str(<<"x">>),
+            \* names holding quote characters, literals ending in a backslash or holding a backtick
+            P!Q(<<"i", "'", "x">>), P!Q(<<"1", "\"">>), P!Str(<<"a", "\\">>), P!Str(<<"`", "x">>) >>
 Funs == << <<"e", "x", "p">>, <<"g">>, <<"m", "a", "x">> >>
 Calls1 == {P!Call(Funs[f], <<Atoms[i]>>) : f \in DOMAIN Funs, i \in DOMAIN Atoms}
              \cup {P!Call(Funs[f], <<Atoms[i], Atoms[j]>>) : f \in DOMAIN Funs, i \in DOMAIN Atoms, j \in DOMAIN Atoms}
@@ -22,6 +24,8 @@ Next == UNCHANGED e
 Spec == Init /\ [][Next]_e
 
 Faithful == P!Faithful(e)
+ScanOK == P!ScanOK(e)
+ScanLossless == P!ScanLossless(e)
 RECURSIVE Cat(_)
 Cat(cs) == IF cs = <<>> THEN "" ELSE Head(cs) \o Cat(Tail(cs))
 Out == IOEnv.OUT_FILE
